@@ -408,9 +408,11 @@ def run_case(case):
                         _write_project(cp, _recipes(spec, repos, top), clock, {})
                         rc = buildsim.bob(cp, argv[:2] + ["root"] if release else ["dev", "root"], {"durations": [0]})
                         if rc.rc != 0:
-                            viol = {"kind": "clean-checkout-fails-but-incremental-succeeded",
-                                    "detail": rc.output[-600:]}
-                            break
+                            # e.g. the recipe pins a commit that a later force-push removed from
+                            # upstream: the old workspace still has it, a fresh clone cannot get it
+                            stats.inc("probe_fresh_checkout_impossible")
+                            common.rmtree(os.path.join(top, "clean%d" % ncleans))
+                            continue
                         a = treecmp.canon(os.path.join(proj, srcws), ignore_scm=True)
                         b = treecmp.canon(os.path.join(cp, _lib_src(cp, release)), ignore_scm=True)
                         stats.inc("convergence_checks")
